@@ -23,6 +23,11 @@ Near edges: a position may carry an exact dyadic offset (pos + fine/2^16): DelSp
   2^-12, 2^-16 of the integer normal, edge midpoints and the surroundings of every vertex, dumps every accepted answer in general
   position with the weights it wants for its probes, and the driver replays them into the real Delaunay mapper (S->C); the seeded
   Delaunay / hub meshes carry 2..6 such positions each.  Inside/outside is the sign of integer determinants: no tolerance.
+Scale: an instance has a list `scales` of exponents k; it is realised at tick length tau * 2^k for each of them (mask pixel scale,
+  data grid and mesh vertices all multiplied by 2^k, which is exact): enumerated rectangular instances at 2, replayed DelSpec answers at
+  3, seeded Delaunay meshes at 2 scales in rotation; identical abstractions share one record (field `scales`), different ones are judged
+  separately.  Nothing the specification wants takes the scale as an argument; CellsScaleAndShiftFree / DelaunayScaleAndShiftFree are the
+  design theorems.  Rectangular instances are also translated by 4096 ticks.
 History: every mapper carries a non-constant positive adapt image and, for a share of the instances, pixel_signals_from(signal_scale)
   is called once or twice before / between the four judged reads (action PixelSignals of the machine: nothing judged changes)."""
 import json
@@ -280,6 +285,14 @@ def _draw_signals(rng, share):
     return out
 
 
+def _far_origin(origin, tau, scales, far):
+    """translation by a large exact offset (in ticks) when the coordinates then stay below 2^21, where overlay_grid's 1e-8 buffer is
+    still far above the floating-point resolution"""
+    if far and tau * 2.0 ** max(scales) <= 256.0:
+        return [4096.0, -2048.5]
+    return origin
+
+
 def gen_rect(rng, idx, big=False):
     for _ in range(100):
         mask, cells = _random_mask(rng, 7 if big else 5, 4 if big else 3)
@@ -332,7 +345,7 @@ def gen_rect(rng, idx, big=False):
                 "tau": float(TAUS[int(rng.integers(0, len(TAUS)))]), "origin": [float(rng.choice([0.0, 0.0, -3.25, 17.3])), float(rng.choice([0.0, 1.5, -0.7]))],
                 "jseed": int(rng.integers(0, 2**31 - 1)), "via": "mesh" if rng.random() < 0.5 else "direct",
                 "order": [int(x) for x in rng.permutation(4)], "scalar_sub": bool(len(set(sub)) == 1 and rng.random() < 0.5),
-                "signals": _draw_signals(rng, 0.4), "scales": [int(rng.choice(RECT_SCALES))]}
+                "signals": _draw_signals(rng, 0.4), "scales": [int(rng.choice(RECT_SCALES))], "far": bool(rng.random() < 0.3)}
     raise core.MachineryError("could not draw a rectangular instance")
 
 
@@ -344,7 +357,7 @@ def complete_dumped(inp, key):
             "origin": [[0.0, 0.0], [-3.25, 1.5], [17.3, -0.7]][key % 3], "jseed": key % (2**31 - 1), "via": "mesh" if key % 2 else "direct",
             "order": [int(x) for x in np.random.default_rng(key % 97).permutation(4)], "scalar_sub": bool(len(set(inp["sub"])) == 1 and key % 4 < 2),
             "signals": _draw_signals(np.random.default_rng(key), 0.3),
-            "scales": [RECT_SCALES[key % 7], RECT_SCALES[(key % 7 + 1 + (key // 7) % 6) % 7]]}
+            "scales": [RECT_SCALES[key % 7], RECT_SCALES[(key % 7 + 1 + (key // 7) % 6) % 7]], "far": key % 5 == 0}
 
 
 def _draw_plain_vertices(rng):
@@ -534,7 +547,10 @@ def build_mapper(inst):
     over = aa.OverSamplerUniform(mask=mask, sub_size=int(sub[0]) if inst.get("scalar_sub") else np.array(sub, dtype=int))
     tau = inst["tau"] * k2  # the tick length of this realisation
     # the origin is given in ticks: the lattice is origin + tau * Z^2
-    off = np.array(inst["origin"], dtype=float) * tau
+    origin = inst["origin"]
+    if inst["kind"] == "rect":
+        origin = _far_origin(origin, inst["tau"], inst.get("scales") or [0], inst.get("far", False))
+    off = np.array(origin, dtype=float) * tau
     pos = np.array(inst["pos"], dtype=float)
     if inst["kind"] == "rect":
         pos = pos + np.random.default_rng(inst["jseed"]).uniform(-JIT, JIT, size=pos.shape)
@@ -782,6 +798,8 @@ def run(ctx):
                                                               "a vertex of degree >= 13 guaranteed"},
         "history": "adapt image 0.3 + k|sin| per pixel; pixel_signals_from(signal_scale in {0, 0.5, 1, 2, 3}) once or twice before/between the reads "
                    "for 30% (exhaustive), 40% (seeded rectangular), 60% (Delaunay) of the mappers",
+        "scales": {"delaunay_exponents": DEL_SCALES, "rectangular_exponents": RECT_SCALES, "realisations": "enumerated rectangular: 2 per instance, DelSpec answers: 3, "
+                   "seeded Delaunay/hub: 2, seeded rectangular: 1 (tick length = tau * 2^k)", "rect_far_origin_ticks": [4096.0, -2048.5]},
         "tick_lengths": TAUS, "tick_lengths_delaunay": DEL_TAUS, "rect_jitter_ticks": JIT,
     }
     # ---- the bounded machines
@@ -889,6 +907,8 @@ def run(ctx):
              f"with {n_probes} probes at 2^-8..2^-16 from edges and vertices; replay mismatches: {n_mism[0]}")
     ctx.note(f"{len(recs)} records validated by Trace_Mapper ({kinds}); Delaunay sub-pixels inside the hull: {inside}, outside: {outside}; Delaunay meshes whose largest reported neighbour list has >= 13 entries: "
              f"{sum(1 for d in degs if d >= 13)} (largest {max(degs) if degs else 0}); rejected: {len(rej)}")
+    ctx.note(f"realisations (instance x scale): {n_real[0]} in {len(recs)} distinct records; records shared by more than one scale: "
+             f"{sum(1 for r in recs if len(r['scales']) > 1)}; scale exponents seen: {sorted({k for r in recs for k in r['scales']})}")
     ctx.note(f"mappers on which pixel_signals_from was evaluated before / between the judged reads: {sum(1 for i in insts if i.get('signals'))} "
              f"(Delaunay: {sum(1 for i in insts if i.get('signals') and i['kind'] == 'delaunay')}), "
              f"before the first read: {sum(1 for i in insts if any(s[0] == 0 for s in i.get('signals', [])))}")
@@ -900,6 +920,11 @@ def run(ctx):
         "a position with an offset is pos + fine/2^16 ticks, exact in binary floating point; the smallest offset (2^-16 of the normal) is >= 1e-8 in barycentric "
         "units on every mesh used, six orders above qhull's default find_simplex tolerance (2e-14), so the unchanged tree classifies every probe exactly at all "
         "three scales (no back-off was needed); positions exactly on the line of a hull edge are never generated, exactly on an interior edge either simplex is accepted",
+        "scale range: on the unchanged tree (scipy/qhull included) Delaunay mappers are judged correct by Trace_Mapper for tick lengths 2^-500 .. 2^+200 and raise "
+        "(overflow / underflow of the area products) at 2^+300 and 2^-1000; the check uses 2^-104 .. 2^+101.  Rectangular mappers depend on overlay_grid's ABSOLUTE "
+        "buffer of 1e-8: below a tick of about 2^-20 the buffer moves cell boundaries past lattice points (first rejections at 2^-20 .. 2^-26), above about 2^+17 "
+        "(coordinates > 1e7) the buffer falls below the floating-point resolution, the extreme points land outside the mesh and the mapper raises IndexError; the check "
+        "keeps the tick inside 2^-16 .. 2^+12 and coordinates below 2^21",
         "alpha multiplies weights by the exact denominators (2*area of the reported triangle, sub_i^2 * lcm per row) and rejects values farther than 1e-6 from an integer",
         "TLC 1.8 / SANY / CommunityModules; scipy.spatial.Delaunay is treated as part of the implementation (its simplices are judged, not trusted)",
     ]
